@@ -359,6 +359,14 @@ def emit(module):
 
 def bundles_for(kind, level, in_class=False):
     """bundle ids available to a scope kind at a bundle-alphabet `level` ('full' | 'mid' | 'core' | 'ann')"""
+    if level == 'tiny':
+        if kind in ('def', 'adef'):
+            return ['none', 'load', 'assign', 'param_pos']
+        if kind in ('module', 'class'):
+            return ['none', 'load', 'assign']
+        if kind == 'lambda':
+            return ['none', 'load', 'param_default']
+        return ['none', 'load_elt', 'target']
     if level == 'ann':
         if kind in ('def', 'adef'):
             return list(ANN_PARAM_BUNDLES) + ['assign', 'load']
@@ -428,7 +436,7 @@ def kinds_for(level):
     return ['def', 'class', 'lambda', 'listcomp', 'genexp']
 
 
-def shapes(nscopes, klevel, slevel):
+def shapes(nscopes, klevel, slevel, chain_only=False):
     """all trees with exactly `nscopes` non-module scopes (unlabelled by bundles): yields a nested structure
     ('module', [(slot, (kind, [children...]))...])"""
     kinds = kinds_for(klevel)
@@ -440,6 +448,8 @@ def shapes(nscopes, klevel, slevel):
             return
         # first child takes k nodes, rest forest takes n-k ; to avoid duplicate orderings keep all orderings (order matters for evaluation)
         for k in range(1, n + 1):
+            if chain_only and k != n:
+                continue        # a chain: the single child takes all remaining nodes
             for kind in kinds:
                 for slot in slots_for(parent_kind, kind, slevel):
                     for sub in subtrees(kind, k - 1):
